@@ -55,6 +55,13 @@ NOTES = {
  'C08-8': 'first missed: templates that repeat one call (with the literal) inside one filter - indexof(s1, {s}) ge 0 and indexof(s1, {s}) lt 5 ... - added',
  'C19-2': 'first missed: string / geography literals whose CONTENT holds whitespace runs, and re-layouts that use one whitespace kind everywhere (line feeds only, CR LF only, tabs only) added',
  'C06-8': 'first caught only through the tie: identifiers that differ only in letter case are now judged one after the other in one process (Title / title / TITLE, Sales.Region / sales.region)',
+ 'C15-8': 'first missed: the registry probe compiled the host\'s func.<name> calls with the default dialect only; it now also compiles them (one, two and three arguments) for SQLite, PostgreSQL and MySQL, over 33 names',
+ 'C11-9': 'first missed: calls in namespaces whose segments are spelled like keywords / operators (null.f, true.check, all.items, Null.f, not.f, my.null.f ...) added',
+ 'C18-9': 'first missed: literals at the extremes of their spelling (-9223372036854775808, 00000000000000000042, 60 digits, 1e400, P999...D) alone, as arguments and in the literal judge',
+ 'C03-9': 'first missed: filters of one shape that differ only in an INTEGER literal inside a function (substring(s1, 1) / substring(s1, 2), lengths, offsets) applied one after the other',
+ 'C07-9': 'first missed: C07 fed trees to the dialects; it now also writes the filter as TEXT (with and without blanks) around contents a decoder would rewrite (%27, %20, a%27)%20or%20..., &#39;, +), parses it with the real lexer / parser and judges the SQL the same way',
+ 'C19-8': 'first missed: long filters (100-450 clauses, 1 500-element lists; thousands of tokens) with a whitespace run at EVERY optional position added',
+ 'C20-9': 'first missed: the process digests now list per-probe outcomes (so the differing probe is the replay), import orders include the SQLAlchemy / Django backends first, and every built-in is probed with 0-4 arguments against arities typed in from the specification',
  'C20-4': 'first missed: accumulation histories (40-120 repetitions of one input, nine kinds that leave a parenthesis open) and extreme single inputs added',
 }
 
@@ -65,12 +72,12 @@ def main():
     n = len(res); caught = sum(1 for rc, v in res.values() if rc == '1'); inp = sum(1 for rc, v in res.values() if rc == '1' and 'no-failing' not in v)
     out = ["### 0.5 Seeded changes and which checks catch them", "",
     "Every seeded change below compiles, leaves the pinned suite at 648 passed / 10 xfailed / 4 errors, and was confirmed in a scratch worktree (its own `demo.py` passes on HEAD and fails with the patch;",
-    "`harness/confirm_seed.sh`). They were written in eight rounds by fresh sub-agents that saw only the property text, a scratch worktree of /repo and (from round 2 on) one-line summaries of the",
+    "`harness/confirm_seed.sh`). They were written in nine rounds by fresh sub-agents that saw only the property text, a scratch worktree of /repo and (from round 2 on) one-line summaries of the",
     "earlier seeds for the same property so as to differ in mechanism - nothing from /verif. `harness/seed_matrix.sh` applies each in an isolated scratch worktree, runs the quick check of its",
     f"property in a scratch copy of /verif and writes `seeded/RESULTS.tsv`: {caught} of {n} are reported, {inp} with a failing input. Where a change was first missed (or caught only through a broken",
     "tie), the generator or the judge was strengthened (last column, regenerated by `harness/mkseedtable.py`) - the properties and the pass criteria were not touched. First-time detection per round",
     "(own check, before any strengthening): rounds 1-2 (47 seeds): the first misses are the ones marked in the last column (C03-3, C08-3, C12-2, C12-3, C12-4); round 3 (11 seeds): 7 with a failing input,",
-    "1 through the tie only, 3 missed; round 4 (20 seeds): 8 with a failing input, 3 through the tie only, 9 missed; round 5 (20 seeds): 10 with a failing input, 2 through the tie only, 7 missed, 1 crashed the translator; round 6 (20 seeds): 11 with a failing input, 3 through the tie only, 6 missed; round 7 (20 seeds): 13 with a failing input, 4 through the tie only, 3 missed; round 8 (20 seeds): 12 with a failing input, 1 through the tie only, 7 missed - rounds 3 to 8 were asked to avoid every mechanism used before, and each miss named a",
+    "1 through the tie only, 3 missed; round 4 (20 seeds): 8 with a failing input, 3 through the tie only, 9 missed; round 5 (20 seeds): 10 with a failing input, 2 through the tie only, 7 missed, 1 crashed the translator; round 6 (20 seeds): 11 with a failing input, 3 through the tie only, 6 missed; round 7 (20 seeds): 13 with a failing input, 4 through the tie only, 3 missed; round 8 (20 seeds): 12 with a failing input, 1 through the tie only, 7 missed; round 9 (20 seeds): 13 with a failing input, 7 missed - rounds 3 to 9 were asked to avoid every mechanism used before, and each miss named a",
     "blind spot of a GENERATOR or of a judge's scope (literal spellings, type-confusable contents, sequences on one instance, accumulation, an over-broad refusal rule, a schema feature), never of a theorem.", "",
     "| seed | file(s) | what it changes | caught by | note |", "|---|---|---|---|---|"]
     for d in sorted(glob.glob('/verif/seeded/*/')):
